@@ -8,7 +8,7 @@ from sa import te, tm
 from sa.core import Ctx
 from sa.sm import call_kw, const_str, dotted, find_calls, norm
 
-from . import common
+from . import common, util
 
 
 def missing_values_discipline(ctx: Ctx, rule: str):
@@ -52,12 +52,20 @@ def run(ctx: Ctx):
     cgc = sm.cls("codegen/base.py", "CodeGenerator")
 
     ctx.rule("R13.a", "missing variables = names used by some assignment minus (defined symbols, time aliases), numbered in sorted order", floor=4)
+    from sa import av as _av13
+
     mv = sm.func("ode.py", "ODE.missing_variables")
-    locs = {norm(n.targets[0]): norm(n.value).replace('"', "'") for n in ast.walk(mv.node) if isinstance(n, ast.Assign)}
-    ctx.check(locs.get("symbols") == "set(self.symbols.keys()) | {'t'}", "R13.a", mv.key("defined"), "defined = symbols of the model (incl. time) and t", f"missing_variables: the set of defined names is {locs.get('symbols')}", mv.where())
-    ctx.check(locs.get("variable_names") == "{var for var in self.dependents() if var not in symbols}", "R13.a", mv.key("used-minus-defined"), "used (keys of dependents()) minus defined", f"missing_variables: variable_names is {locs.get('variable_names')}", mv.where())
-    rets = [norm(n.value) for n in ast.walk(mv.node) if isinstance(n, ast.Return)]
-    ctx.check(rets == ["{var: i for i, var in enumerate(sorted(variable_names))}"], "R13.a", mv.key("numbering"), "numbered in sorted order", f"missing_variables returns {rets}", mv.where())
+    mvv = util.value_of(ctx, mv)
+    bv1, bv2 = ("bv", 1), ("bv", 2)
+    used = ("mcall", ("sym", "self"), "dependents", (), ())
+    defined = _av13.mk_and(_av13.mk_cmp("!=", bv1, _av13.C("t")), _av13.mk_cmp("not in", bv1, ("sym", "self.symbols")))
+    # (the sequence a comprehension ranges over is outside its binder: both levels are numbered 1)
+    REF_MV = ("comp", 1, ("call", "sorted", (("comp", 1, used, (bv1,), (defined,)),), ()), (("kv", bv1, ("idx", 1, _av13.C(0))),), ())
+    vd = util.verdict(mvv, [REF_MV])
+    if vd == "unknown":
+        ctx.undecided("R13.a", mv.key("numbering"), f"what ODE.missing_variables returns is not understood ({_av13.show(mvv)[:120]})", mv.where())
+    else:
+        ctx.check(vd == "ok", "R13.a", mv.key("numbering"), "names used (keys of dependents()) minus defined symbols and t, numbered in sorted order", f"ODE.missing_variables returns {_av13.show(mvv)[:220]}; expected: every key of self.dependents() that is neither a symbol of the model nor `t`, numbered 0.. in sorted order", mv.where())
     from sa import av as _av
 
     from . import odemodel
@@ -88,7 +96,6 @@ def run(ctx: Ctx):
         ctx.check(good == 4, "R13.a", ga.key("symbols-of-all-kinds"), "parameters, states, intermediates and state derivatives are defined symbols", f"gather_atoms registers symbols[name] = atom.symbol for {good} of the 4 atom kinds", ga.where())
 
     ctx.rule("R13.b", "sibling agreement: rhs, monitor_values, missing_values and scheme all unpack the missing variables, append the formal under the same condition and hand the block to the template; both python templates splice it before the body", floor=16)
-    from . import util
 
     for mname in ("rhs", "monitor_values", "missing_values", "scheme"):
         f = util.nff(ctx, cgc.methods[mname])
@@ -154,15 +161,33 @@ def run(ctx: Ctx):
     missing_values_discipline(ctx, "R13.c")
 
     ctx.rule("R13.d", "model - C drops exactly component C; C.to_ode() keeps exactly C", floor=2)
+    from sa import av as _avd13
+
     sub = sm.func("ode.py", "ODE.__sub__")
-    comp = [n for n in ast.walk(sub.node) if isinstance(n, ast.ListComp)]
-    oks = bool(comp) and norm(comp[0]) == "[comp for comp in self.components if comp != other]"
-    call = [c for c in ast.walk(sub.node) if isinstance(c, ast.Call) and norm(c.func) == "ODE"]
-    oks = oks and bool(call) and norm(call_kw(call[0], "components")) == "new_components" and norm(call_kw(call[0], "t")) == "self.t"
-    ctx.check(oks, "R13.d", sub.key(), "ODE(components = every component except `other`)", "ODE.__sub__ does not build the model from every component except the given one", sub.where())
+    sbv = util.value_of(ctx, sub)
+    oc = [c for c in _avd13.find_all(sbv, "call") if c[1].split(".")[-1] == "ODE"]
+    if not oc:
+        ctx.undecided("R13.d", sub.key(), f"what ODE.__sub__ returns is not understood ({_avd13.show(sbv)[:100]})", sub.where())
+    else:
+        kw = dict(oc[0][3])
+        comps = _avd13._unwrap_seq(kw.get("components", oc[0][2][0] if oc[0][2] else ("unk", "")))
+        while comps[0] == "call" and comps[1] in ("tuple", "list") and len(comps[2]) == 1:
+            comps = _avd13._unwrap_seq(comps[2][0])
+        op_ = sub.params[1]
+        REF_SUB = ("comp", 1, ("sym", "self.components"), (("bv", 1),), (("cmp", "!=", ("bv", 1), ("sym", op_)),))
+        vd = util.verdict(comps, [REF_SUB])
+        if vd == "unknown":
+            ctx.undecided("R13.d", sub.key(), f"the components of `model - component` are not understood ({_avd13.show(comps)[:100]})", sub.where())
+        else:
+            ctx.check(vd == "ok" and kw.get("t") == ("sym", "self.t"), "R13.d", sub.key(), "ODE(components = every component except `other`)", f"ODE.__sub__ builds the model from {_avd13.show(comps)[:120]} (t={_avd13.show(kw.get('t')) if kw.get('t') else None}), not from every component except the given one", sub.where())
     to = sm.func("ode_component.py", "BaseComponent.to_ode")
-    call = [c for c in ast.walk(to.node) if isinstance(c, ast.Call) and norm(c.func) == "ODE"]
-    ctx.check(bool(call) and norm(call_kw(call[0], "components")) == "(self,)", "R13.d", to.key(), "ODE(components=(self,))", "BaseComponent.to_ode does not build the model from exactly this component", to.where())
+    tov = util.value_of(ctx, to)
+    oc = [c for c in _avd13.find_all(tov, "call") if c[1].split(".")[-1] == "ODE"]
+    if not oc:
+        ctx.undecided("R13.d", to.key(), "what to_ode returns is not understood", to.where())
+    else:
+        comps = dict(oc[0][3]).get("components", oc[0][2][0] if oc[0][2] else None)
+        ctx.check(comps == ("list", (("sym", "self"),)), "R13.d", to.key(), "ODE(components=(self,))", f"BaseComponent.to_ode builds the model from {_avd13.show(comps) if comps else None}, not from exactly this component", to.where())
 
     ctx.rule("R13.e", "the jax method template returns the slots _values_0.._values_{n-1} in slot order (missing_values stores its slots in emission order, not slot order)", floor=5)
     from .c03 import jax_template
